@@ -240,7 +240,7 @@ def C10(ctx):
     # the configuration-determined stages cannot panic for any configuration (a failed bounds/overflow assert or an explicit panic
     # met by the partial evaluator is reported by the rule that met it), and they produce what the next stage expects
     G.prepare(ctx, f, {"blank", "format", "masks", "place"})
-    G.c06_r2(ctx, f)
+    d_enc = G.c06_r2(ctx, f)
     d_il = G.c02_r4(ctx, f)
     d_blank = G.c03_r3(ctx, f)
     d_place = G.c01_r5(ctx, f)
@@ -257,6 +257,11 @@ def C10(ctx):
         ev["placement::place_on_matrix_data"] = "C01.R5"
     if d_il:
         ev["polynomials::structure"] = "C02.R4"
+    if d_enc:
+        # the encoders were evaluated with a symbolic payload for every length residue and both ends of the capacities: a panic
+        # that depends on a payload value stops that evaluation (no verdict), one that depends on the length class is met
+        ev["encode::encode_"] = "C06.R2 (all evaluated length cells)"
+        ev["<encode::"] = "C06.R2 (all evaluated length cells)"
     # lookup functions folded over their whole (version, level) domain by the table rules of this run
     if lay and len(lay) == 160:
         ev["hardcode::ecc_to_groups"] = "C02.T1 (160 cells)"
